@@ -28,7 +28,8 @@ ASSUMPTIONS = [
     "a multi-line (data block) value is accepted as lines joined by newline with or without one leading newline "
     "(the '250+key=' line carries an empty first line)",
     "GETINFO keys are distinct within a call and never contain '=' or white space",
-    "multi-line values are requested alone (statement: 'of a single requested key')",
+    "multi-line values are mostly requested alone (statement: 'of a single requested key'); 6% of calls request 2-4 keys of which some are answered with a data block whose lines cannot be mistaken for a requested key or the final status line",
+    "in the input classes with a recorded mechanism (quotes stripped / OK line dropped / key-like line splits the value) a result that the mechanism does not predict is reported under a clause of its own",
     "in 20% of the random cases one or two earlier calls (plain / per-line / incremental, answered 2xx or 5xx) were made and answered on the same connection first; they must not change the result",
     "'pipelined' cases make 2-4 calls back to back so that all are outstanding at once; each must get exactly its own result",
     "in 30% of the random cases an unsubscribed 650 event (single / multi-line / data form) is delivered between the command and its reply; it must not change the result",
@@ -40,13 +41,16 @@ ANCHORS = ["txtorcon.torcontrolprotocol:parse_keywords", "txtorcon.torcontrolpro
            "txtorcon.torcontrolprotocol:TorControlProtocol.get_conf",
            "txtorcon.torcontrolprotocol:TorControlProtocol.get_conf_single",
            "txtorcon.torcontrolprotocol:TorControlProtocol._accumulate_multi_response"]
-FLOORS = {"quick": {"evaluations": 3000, "results_compared": 3000, "earlier_calls_on_same_connection": 800, "results_of_calls_outstanding_together": 1000, "earlier_call_cancelled_while_in_flight": 80, "reach:txtorcon.torcontrolprotocol:parse_keywords": 3000},
+FLOORS = {"quick": {"evaluations": 3000, "results_compared": 3000, "earlier_calls_on_same_connection": 800, "results_of_calls_outstanding_together": 1000, "earlier_call_cancelled_while_in_flight": 80, "replies_with_several_keys_and_data_blocks": 150, "reach:txtorcon.torcontrolprotocol:parse_keywords": 3000},
           "thorough": {"evaluations": 40000, "results_compared": 40000}}
 
 ALPHA = ["a", "=", " ", '"', "'", "2", "5", "0", ".", "O", "K"]
 INFO_KEYS = ["version", "config-file", "ns/all", "circuit-status", "net/listeners/socks", "a/b", "info/names",
              "address-mappings/all", "ip-to-country/1.2.3.4", "status/bootstrap-phase"]
 CONF_KEYS = ["SocksPort", "Log", "ContactInfo", "HiddenServiceDir", "MyFamily", "ORPort"]
+
+
+KNOWN_CLASSES = ("value-wrapped-in-matching-quotes", "data-line-is-OK", "data-line-looks-like-requested-key")
 
 
 def wrapped(v):
@@ -70,6 +74,54 @@ def lines_class(lines, key):
     if any(l.strip() == "OK" for l in lines):
         return "data-line-is-OK"
     return "general"
+
+
+def _map_values(res, f):
+    if isinstance(res, dict):
+        return {k: _map_values(v, f) for k, v in res.items()}
+    if isinstance(res, list):
+        return [_map_values(v, f) for v in res]
+    if isinstance(res, str):
+        return f(res)
+    return res
+
+
+def explained_by_recorded_mechanism(case, icls, want_ok, got):
+    """the three recorded C13 mechanisms predict a definite wrong result; anything else reported in
+    those input classes is something new and gets a clause of its own"""
+    cands = []
+    for w in want_ok:
+        if icls.startswith("value-wrapped-in-matching-quotes"):
+            cands.append(_map_values(w, lambda v: v[1:-1] if wrapped(v) else v))
+        if case.get("multiline"):
+            key = case["keys"][0]
+            lines = [l for l in case["values"][0]]
+            if "data-line-is-OK" in icls or "data-line-looks-like-requested-key" in icls:
+                kept = [l for l in lines if l.strip() != "OK"]
+                segs, cur = [], []
+                for l in kept:
+                    if l.startswith(key + "="):
+                        segs.append("\n".join(cur))
+                        cur = [l[len(key) + 1:]]
+                    else:
+                        cur.append(l)
+                segs.append("\n".join(cur))
+                for lead in ("", "\n"):
+                    first = lead + segs[0] if (segs[0] or lead == "") else lead.rstrip("\n") if False else lead + segs[0]
+                    val = first if len(segs) == 1 else [first] + segs[1:]
+                    cands.append(val if case["api"] == "get_info_single" else {key: val})
+                    # an empty leading segment collapses
+                    if len(segs) > 1 and segs[0] == "":
+                        val2 = [lead] + segs[1:] if lead else segs[1:] if len(segs) > 2 else segs[1]
+                        cands.append(val2 if case["api"] == "get_info_single" else {key: val2})
+    return any(got == c for c in cands)
+
+
+def report_mismatch(rec, case, icls, want_ok, got, errs, replay_case=None):
+    clause = "value-mismatch"
+    if icls.split("+")[0] in KNOWN_CLASSES and not explained_by_recorded_mechanism(case, icls, want_ok, got):
+        clause = "value-mismatch-not-explained-by-the-recorded-mechanism"
+    rec.violation(clause, icls, {"want": want_ok[0], "got": got, "logged": errs}, replay_case or case)
 
 
 class Ctx(object):
@@ -161,6 +213,25 @@ def do_prior(s, kind, rec):
 def prepare(case):
     """-> (api, call arguments, command line, reply, acceptable results, input class)"""
     api = case["api"]
+    if case.get("mixed"):
+        # several requested keys, some answered with a data block ('250+key=' ... '.'), in request order
+        keys = case["keys"]
+        vals = case["values"]
+        parts = []
+        wants = [{}]
+        for k, v in zip(keys, vals):
+            if isinstance(v, list):
+                parts.append(("data", k + "=", list(v)))
+                joined = "\n".join(v)
+                wants = [dict(w, **{k: j}) for w in wants for j in ((joined, "\n" + joined) if v else ("", "\n"))]
+            else:
+                parts.append(("mid", "%s=%s" % (k, v)))
+                wants = [dict(w, **{k: v}) for w in wants]
+        parts.append(("end", "OK"))
+        icls = value_class([v for v in vals if isinstance(v, str)])
+        if icls == "general":
+            icls = "general+several-keys-with-data-blocks"
+        return api, keys, "GETINFO " + " ".join(keys), (250, parts), wants, icls
     if api in ("get_info", "get_info_single"):
         keys = case["keys"]
         vals = case["values"]
@@ -249,11 +320,13 @@ def run_case(case, rec, ctx):
     rec.count("results_compared")
     if case.get("grouped"):
         rec.count("replies_with_interleaved_keys")
+    if case.get("mixed"):
+        rec.count("replies_with_several_keys_and_data_blocks")
     if not o.ok:
         rec.violation("call-failed", icls, {"got": o.describe(), "logged": errs}, case)
         return
     if o.value not in want_ok:
-        rec.violation("value-mismatch", icls, {"want": want_ok[0], "got": o.value, "logged": errs}, case)
+        report_mismatch(rec, case, icls, want_ok, o.value, errs)
 
 
 def run_pipelined(case, rec, ctx):
@@ -285,7 +358,7 @@ def run_pipelined(case, rec, ctx):
         rec.violation("exception", "general+calls-outstanding-together", {"escaped": s.exceptions[nexc:]}, case)
         ctx.s = None
         return
-    for o, (api, callkeys, cmd, reply, want_ok, icls) in zip(outs, prepared):
+    for o, (api, callkeys, cmd, reply, want_ok, icls), sub in zip(outs, prepared, case["calls"]):
         if icls in ("general", "unset"):
             icls += "+calls-outstanding-together"     # structural classes with a recorded mechanism keep their key
         if not o.fired:
@@ -297,7 +370,7 @@ def run_pipelined(case, rec, ctx):
         if not o.ok:
             rec.violation("call-failed", icls, {"got": o.describe(), "logged": errs}, case)
         elif o.value not in want_ok:
-            rec.violation("value-mismatch", icls, {"want": want_ok[0], "got": o.value, "logged": errs}, case)
+            report_mismatch(rec, sub, icls, want_ok, o.value, errs, case)
 
 
 def short_values(maxlen):
@@ -317,6 +390,18 @@ def gen_call(rnd, edge=False):
             if rnd.random() < 0.3:
                 pairs.append(("HiddenServiceVersion", rnd.choice(["2", "3"])))
         return {"api": "get_conf", "keys": ["HiddenServiceOptions"], "values": pairs, "grouped": True}
+    if rnd.random() < 0.06:
+        n = rnd.randint(2, 4)
+        keys = rnd.sample(INFO_KEYS, n)
+        vals = []
+        for _ in keys:
+            if rnd.random() < 0.5:
+                # lines that cannot be mistaken for '<requested key>=...' or the final status line
+                vals.append([rnd.choice(["r relay 1.2.3.4", "s Fast Running", "x y", "", "250 OK", "other=1", "a=b=c", ".x"])
+                             for _ in range(rnd.randint(0, 4))])
+            else:
+                vals.append(gen.text(rnd, maxlen=30, dots=False))
+        return {"api": "get_info", "keys": keys, "values": vals, "mixed": True}
     r = rnd.random()
     txt = lambda: gen.text(rnd, maxlen=40, edge=False, dots=True)    # noqa
     if r < 0.3:
@@ -336,6 +421,8 @@ def gen_call(rnd, edge=False):
                 lines.append(rnd.choice(["other=1", "x/y=z", "k v=w", "250 OK", "650 X", "=", ".", "..", "...", "", ".x"]))
             elif q < 0.18 and edge:
                 lines.append(rnd.choice([k + "=again", "OK", " ."]))
+            elif q < 0.21:
+                lines.append(rnd.choice([k, k + " ", k.upper(), k + "x=1", "x" + k + "=1"]))     # the key's own name as text
             else:
                 lines.append(txt())
         case = {"api": rnd.choice(["get_info", "get_info_single"]), "keys": [k],
@@ -350,6 +437,11 @@ def gen_call(rnd, edge=False):
         else:
             vals = [gen.text(rnd, maxlen=30, dots=False) for _ in range(rnd.choice([1, 1, 2, 3, 4, 5]))]
         case = {"api": rnd.choice(["get_conf", "get_conf_single"]), "keys": [k], "values": vals}
+    if not case.get("multiline") and case["values"] and rnd.random() < 0.06:
+        # quoted text with backslashes inside (Windows paths, escaped quotes): returned as Tor sent it
+        q = rnd.choice(['"', "'"])
+        body = rnd.choice(["C:\\tor\\new\\relay", "a\\tb", "x\\\\y", "say \\" + q + "hi\\" + q, "\\101\\x41", "end\\"])
+        case["values"][rnd.randrange(len(case["values"]))] = q + body + q
     return case
 
 
